@@ -113,6 +113,60 @@ def funcs_of(node, spec):
     return f
 
 
+class _Junk:
+    """Argument for parameters that carry no hint (or an ignorable one): conforms to no hint of the grammar that checks anything."""
+    def __repr__(self):
+        return '<junk>'
+
+
+JUNK = _Junk()
+_SIG_SRC = '''
+def s_kwonly(a, *, p): return None
+def s_posonly(p, /, b=None): return None
+def s_default(a=None, p=None): return None
+def s_varargs(a, *args): return None
+def s_varkw(a=None, b=None, *, c=None, **kw): return None
+def s_varkw_only(**kw): return None
+'''
+# label -> (function name, annotated parameter, how the object x is passed next to junk for the other parameters)
+SIG_SHAPES = {
+    'kwonly': ('s_kwonly', 'p', lambda f, x: f(JUNK, p=x)),
+    'posonly': ('s_posonly', 'p', lambda f, x: f(x, b=JUNK)),
+    'default-by-keyword': ('s_default', 'p', lambda f, x: f(p=x)),
+    'default-by-position': ('s_default', 'p', lambda f, x: f(JUNK, x)),
+    'varargs': ('s_varargs', 'args', lambda f, x: f(JUNK, x, x)),
+    'varkw-others-by-keyword': ('s_varkw', 'kw', lambda f, x: f(a=JUNK, b=JUNK, c=JUNK, k=x)),
+    'varkw-others-by-position': ('s_varkw', 'kw', lambda f, x: f(JUNK, JUNK, k1=x, k2=x)),
+    'varkw-only': ('s_varkw_only', 'kw', lambda f, x: f(k=x)),
+}
+_SIGS = {}
+
+
+def sigs_of(node, spec):
+    """{label: decorated function} - the hint on one parameter of signatures with parameters of every kind; the other parameters
+    are unannotated or carry ignorable hints (object, Any) and receive JUNK."""
+    key = (json.dumps(node), json.dumps(spec, sort_keys=True))
+    d = _SIGS.get(key)
+    if d is None:
+        import typing
+        hint = hint_of(node)
+        deco = beartype(conf=conf_from_spec(spec))
+        d = {}
+        for label, (fname, pname, _call) in SIG_SHAPES.items():
+            ns = {}
+            exec(_SIG_SRC, ns)
+            f = ns[fname]
+            f.__module__ = __name__
+            f.__annotations__ = {pname: hint}
+            if fname == 's_varkw':
+                f.__annotations__.update(b=object, c=typing.Any)
+            d[label] = deco(f)
+        if len(_SIGS) > 2000:
+            _SIGS.clear()
+        _SIGS[key] = d
+    return d
+
+
 def expected_violation_class(spec, ep):
     """The configured violation class for an entry point (documentation of the violation_* options)."""
     vt = spec.get('violation_type')
@@ -151,6 +205,8 @@ def call_entry(ep, node, vast, spec, r):
                     res = funcs_of(node, spec)[1](x)
                 elif ep == 'ident':
                     res = funcs_of(node, spec)[2](x)
+                elif ep.startswith('sig:'):
+                    res = SIG_SHAPES[ep[4:]][2](sigs_of(node, spec)[ep[4:]], x)
                 else:
                     raise ValueError(ep)
             out['result'] = res
